@@ -3,8 +3,30 @@
 // Contracts for the gvc verifier (see /verif/DESIGN.md). Comment-only file: it adds no code.
 package gabi
 
-//@ pred wfparams(pp) := pp.Le >= 1 && pp.Le <= 65536 && pp.Lm <= 65536 && pp.LmCommit <= 65536 && pp.LeCommit <= 65536 && pp.LvPrimeCommit <= 65536 && pp.LvCommit <= 65536
+//@ implementers Proof: *ProofD, *ProofU
+
+//@ pred wfparams(pp) := pp.Le >= 1 && pp.Le <= 65536 && pp.Lm <= 65536 && pp.LmCommit <= 65536 && pp.LeCommit <= 65536 && pp.LvPrimeCommit <= 65536 && pp.LvCommit <= 65536 && pp.Lh <= 65536 && pp.Lstatzk <= 65536 && pp.LePrime >= 1 && pp.LePrime <= 65536 && pp.Lv >= 1 && pp.Lv <= 65536
 //@ pred wfpk(pk) := pk != nil && pk.N != nil && pk.Z != nil && pk.S != nil && pk.Params != nil && len(pk.R) >= 1 && (forall i in 0..len(pk.R) :: pk.R[i] != nil) && val(pk.N) > 1 && wfparams(pk.Params)
+
+//@ # structure of a decodable disclosure proof that the verifier insists on before touching it
+//@ pred presentD(p) := p.C != nil && p.A != nil && p.EResponse != nil && p.VResponse != nil
+//@ pred hiddenok(p, pk) := forall k in dom(p.AResponses) :: 0 <= k && k < len(pk.R) && p.AResponses[k] != nil
+//@ pred disclosedok(p, pk) := forall k in dom(p.ADisclosed) :: 1 <= k && k < len(pk.R) && p.ADisclosed[k] != nil && !in(p.AResponses, k)
+//@ pred structD(p, pk) := presentD(p) && hiddenok(p, pk) && disclosedok(p, pk)
+//@ pred sizesD(p, pk) := (forall k in dom(p.AResponses) :: 0 <= val(p.AResponses[k]) && val(p.AResponses[k]) <= pow2(pk.Params.LmCommit+1)-1) && 0 <= val(p.EResponse) && val(p.EResponse) <= pow2(pk.Params.LeCommit+1)-1
+
+//@ pred presentU(p) := p.U != nil && p.C != nil && p.VPrimeResponse != nil && p.SResponse != nil
+//@ pred userok(p, pk) := forall k in dom(p.MUserResponses) :: 1 <= k && k < len(pk.R) && p.MUserResponses[k] != nil
+//@ pred structU(p, pk) := presentU(p) && userok(p, pk)
+
+//@ func (*ProofD).checkStructure
+//@   property C01 C03 C08
+//@   requires p != nil && wfpk(pk)
+//@   ensures ok: result ==> structD(p, pk)
+//@   modifies nothing
+//@   loop 0 invariant forall k in dom(p.AResponses) :: seen(k) ==> 0 <= k && k < len(pk.R) && p.AResponses[k] != nil
+//@   loop 1 invariant forall k in dom(p.ADisclosed) :: seen(k) ==> 1 <= k && k < len(pk.R) && p.ADisclosed[k] != nil && !in(p.AResponses, k)
+//@   mustfail canary: !result
 
 //@ func (*ProofD).correctResponseSizes
 //@   property C01 C08
@@ -15,3 +37,72 @@ package gabi
 //@   modifies nothing
 //@   loop 0 invariant forall k in dom(p.AResponses) :: seen(k) ==> 0 <= val(p.AResponses[k]) && val(p.AResponses[k]) <= pow2(pk.Params.LmCommit+1)-1
 //@   mustfail canary: result
+
+//@ # values decoded from JSON are never negative (big.Int.UnmarshalJSON refuses a minus sign, SetBytes is unsigned)
+//@ pred nonnegD(p) := forall k in dom(p.ADisclosed) :: p.ADisclosed[k] != nil ==> val(p.ADisclosed[k]) >= 0
+
+//@ func (*ProofD).reconstructZ
+//@   property C01 C08
+//@   requires p != nil && wfpk(pk) && nonnegD(p)
+//@   ensures checked: err == nil ==> structD(p, pk) && result0 != nil && fresh(result0)
+//@   ensures fail: err != nil ==> result0 == nil
+//@   modifies nothing
+//@   mustfail canary: err != nil
+
+//@ func (*ProofD).revocationAttrIndex
+//@   property C11 C08
+//@   requires p != nil && forall k in dom(p.AResponses) :: k >= 0 && p.AResponses[k] != nil
+//@   assume revocation.Parameters.AttributeSize == 195 && revocation.Parameters.ChallengeLength == 256 && revocation.Parameters.ZkStat == 128
+//@   ensures found: result >= 0 ==> in(p.AResponses, result) && val(p.AResponses[result]) < pow2(revocation.Parameters.AttributeSize + revocation.Parameters.ChallengeLength + revocation.Parameters.ZkStat + 1)
+//@   ensures none: result < 0 ==> result == 0 - 1 && forall k in dom(p.AResponses) :: val(p.AResponses[k]) >= pow2(revocation.Parameters.AttributeSize + revocation.Parameters.ChallengeLength + revocation.Parameters.ZkStat + 1)
+//@   modifies nothing
+//@   loop 0 invariant forall k in dom(p.AResponses) :: seen(k) ==> val(p.AResponses[k]) >= pow2(revocation.Parameters.AttributeSize + revocation.Parameters.ChallengeLength + revocation.Parameters.ZkStat + 1)
+
+//@ func (*ProofD).SecretKeyResponse
+//@   property C03 C08
+//@   requires p != nil
+//@   ensures value: result == p.AResponses[0]
+//@   modifies nothing
+
+//@ func (*ProofU).checkStructure
+//@   property C03 C06 C08
+//@   requires p != nil && wfpk(pk)
+//@   ensures ok: result ==> structU(p, pk)
+//@   modifies nothing
+//@   loop 0 invariant forall k in dom(p.MUserResponses) :: seen(k) ==> 1 <= k && k < len(pk.R) && p.MUserResponses[k] != nil
+//@   mustfail canary: !result
+
+//@ func (*ProofU).correctResponseSizes
+//@   property C06 C08
+//@   requires wfpk(pk) && p != nil && p.VPrimeResponse != nil
+//@   ensures range: result ==> 0 <= val(p.VPrimeResponse) && val(p.VPrimeResponse) <= pow2(pk.Params.LvPrimeCommit+1)-1
+//@   modifies nothing
+//@   mustfail canary: result
+
+//@ func (*ProofU).VerifyWithChallenge
+//@   property C02 C03 C06 C08
+//@   requires p != nil && wfpk(pk) && reconstructedChallenge != nil
+//@   ensures accept: result ==> structU(p, pk) && val(p.C) == val(reconstructedChallenge) && 0 <= val(p.VPrimeResponse) && val(p.VPrimeResponse) <= pow2(pk.Params.LvPrimeCommit+1)-1
+//@   modifies nothing
+//@   mustfail canary: !result
+
+//@ func (*ProofU).reconstructUcommit
+//@   property C06 C08
+//@   requires p != nil && wfpk(pk)
+//@   ensures checked: err == nil ==> structU(p, pk) && result0 != nil && fresh(result0)
+//@   ensures fail: err != nil ==> result0 == nil
+//@   modifies nothing
+//@   mustfail canary: err != nil
+
+//@ func (*ProofU).ChallengeContribution
+//@   property C02 C06 C08
+//@   requires p != nil && wfpk(pk)
+//@   ensures shape: err == nil ==> structU(p, pk) && len(result0) == 2 && result0[0] == p.U && result0[1] != nil && fresh(result0[1]) && fresh(result0)
+//@   ensures fail: err != nil ==> result0 == nil
+//@   modifies nothing
+
+//@ func (*ProofU).SecretKeyResponse
+//@   property C03 C08
+//@   requires p != nil
+//@   ensures value: result == p.SResponse
+//@   modifies nothing
